@@ -128,13 +128,16 @@ theorem byteOfBits_testBit (f : Nat → Bool) (j : Nat) (hj : j < 8) :
 /-- Bit-level characterisation of the reference writer. -/
 theorem specSet_wireBit (m : Mem) (pdu s w v i : Nat) :
     wireBit (specSet m pdu s w v) pdu i = specSetBit m pdu s w v i := by
-  unfold wireBit specSet
+  unfold wireBit specSet specSetBit
+  simp only
   rw [if_pos (by omega), byteOfBits_testBit _ _ (by omega)]
-  have : 8 * (pdu + i / 8 - pdu) + (7 - (7 - i % 8)) = i := by omega
-  rw [this]
+  have e1 : 8 * (pdu + i / 8 - pdu) + (7 - (7 - i % 8)) = i := by omega
+  have e2 : 7 - (7 - (7 - i % 8)) = 7 - i % 8 := by omega
+  simp only [e1, e2]
+  rfl
 
 theorem specSet_below (m : Mem) (pdu s w v a : Nat) (h : a < pdu) : specSet m pdu s w v a = m a := by
-  unfold specSet; rw [if_neg (by omega)]
+  unfold specSet; simp only; rw [if_neg (by omega)]
 
 /-- Two memories that agree below `pdu` and on every wire bit of the PDU are equal. -/
 theorem mem_ext_wire (m₁ m₂ : Mem) (pdu : Nat) (hb : ∀ a, a < pdu → m₁ a = m₂ a)
